@@ -18,6 +18,12 @@ the file edited by another tool in between; every clause of the property is judg
 (`history_scenarios`, `run_gated(carry=…)`), and the built-in transport kinds are taken through a reconnect loop
 (connect fails, the cause goes away, the same objects are entered again: `run_real(retry_after_failed_connect=True)`).
 
+A fourth group leaves the context while the transport holds messages that were received and not read (`run_unread`:
+every built-in transport kind with its far end driven by the harness - TCP server, serial peer, broker stub, `_receive`;
+the body handles some of a burst, more arrive after its last read; left normally, by an exception of the body or of
+`listen()`, by cancellation; the same objects entered again), and the same with an in-memory MQTTTransport subclass at
+every saver position it can reach, compared with the model (`gated-mqtt-unread`).
+
 Every await of the harness that could block is guarded by a real-time timeout; a hang is a violation.
 """
 
@@ -28,6 +34,7 @@ import heapq
 import json
 import os
 import socket
+from types import SimpleNamespace
 from unittest import mock
 
 from .. import lib
@@ -416,8 +423,12 @@ async def edit_file_between_sessions(path: str, session: int, edit: str) -> None
 
 
 async def run_gated(path: str, pos: str, faults: dict, periodic_fails_at=None, extra_ticks=0, carry: dict | None = None,
-                    session: int = 0, edit: str = "add") -> dict:
+                    session: int = 0, edit: str = "add", transport_class=None, traffic=None) -> dict:
     """Runs one scenario (one context statement) on the real Gateway; returns the observation.
+
+    `transport_class`: a transport with FlakyTransport's knobs (default FlakyTransport).  `traffic`: an object whose
+    `in_body(gateway, transport)` is awaited in the body once the saver is where the scenario wants it (messages arrive,
+    some are read) and whose `cleanup()` is awaited after everything was observed.
 
     `carry` (histories): a dict that lives as long as the history; the Gateway and transport objects of the first
     session are kept in it and *the same objects* are entered again by every later session.  Each session has its own
@@ -460,7 +471,7 @@ async def run_gated(path: str, pos: str, faults: dict, periodic_fails_at=None, e
             setattr(transport, k, v)
         transport.calls = []
     else:
-        transport = FlakyTransport(**behaviour)
+        transport = (transport_class or FlakyTransport)(**behaviour)
     obs: dict = {"entered": False, "loaded_ok": None}
     body_parked = asyncio.Event()
     self_cancel = cancel_before_first_suspension(pos, faults)
@@ -490,6 +501,8 @@ async def run_gated(path: str, pos: str, faults: dict, periodic_fails_at=None, e
                     await reach()
                     if extra_ticks:
                         await clock.advance_to(clock.now + extra_ticks, lambda: settle(ctl, clock, lambda: proxy.created))
+                    if traffic is not None:
+                        await traffic.in_body(gateway, transport)
                     if session:
                         gateway.nodes[42 + session] = Node(42 + session, 17, "2.0", sketch_name=f"added in the body of session {session}")
                     else:
@@ -539,6 +552,8 @@ async def run_gated(path: str, pos: str, faults: dict, periodic_fails_at=None, e
             t.cancel()
         if leftovers:
             await asyncio.wait(leftovers, timeout=GUARD)
+        if traffic is not None:
+            await traffic.cleanup()
     for h in ctl.handles:
         try:
             h.close()
@@ -784,12 +799,21 @@ class LoopbackSerial(SerialTransport):
 
 
 class FakeMqttMessages:
+    """`client.messages`: an async iterator over what the broker delivers.  The harness puts messages (objects with
+    `.topic.value` and `.payload`), or an exception the iteration is to raise, into `inbox`; while there is nothing the
+    iteration waits, as a quiet broker does."""
+
+    def __init__(self) -> None:
+        self.inbox: asyncio.Queue = asyncio.Queue()
+
     def __aiter__(self):
         return self
 
     async def __anext__(self):
-        await asyncio.Event().wait()
-        raise StopAsyncIteration
+        item = await self.inbox.get()
+        if isinstance(item, BaseException):
+            raise item
+        return item
 
 
 class FakeMqttClient:
@@ -999,6 +1023,419 @@ async def run_real(path: str, kind: str, fail_connect: bool, wait_first_save: bo
     return obs
 
 
+# ---- traffic: messages that were received but not read when the context is left ---------------------
+#
+# "leaving the context - normally or through an exception ... - disconnects the transport, writes the final registry
+# to the file and leaves no background task running", for "all built-in transport kinds": whatever the transport
+# has received and nobody has read (the body of the context is the only reader, and it is gone when the context is
+# left) must not keep the exit from completing.
+
+
+def presentation_line(node_id: int) -> str:
+    return f"{node_id};255;0;0;17;2.0"
+
+
+INVALID_LINE = "x;y;z;q;w;p"           # six fields, none of them a number: listen() raises InvalidMessageError
+PARTIAL_BYTES = b"77;255;0;0"          # the beginning of a line whose end has not arrived (stream kinds)
+TRAFFIC_KINDS = ("tcp", "serial", "mqtt-client", "mqtt-abstract")
+MQTT_KINDS = ("mqtt-client", "mqtt-abstract")
+
+
+async def _until(cond, limit: float = 1.0) -> bool:
+    loop = asyncio.get_running_loop()
+    end = loop.time() + limit
+    while not cond():
+        if loop.time() > end:
+            return False
+        await asyncio.sleep(0.002)
+    return True
+
+
+class Wire:
+    """One built-in transport kind, offline, with the far end (the MySensors gateway on the wire / the broker) in the
+    harness's hands: it delivers messages to the transport and tells whether the transport was really disconnected.
+
+    Items delivered: ("msg", node id) a node presentation; ("invalid",) a line the decoder refuses; ("partial",) the
+    beginning of a line (stream kinds; nothing for MQTT); ("recv-error",) receiving fails (MQTT kinds: the broker
+    connection breaks / the documented `_receive_error`)."""
+
+    def __init__(self, kind: str) -> None:
+        self.kind = kind
+        self.transport = None
+        self.server = None
+        self.peer_writers: list = []
+        self.peer_done = 0                # tcp: connections the far end saw closed (EOF or reset)
+        self.peers: list = []             # serial: far ends of the socket pairs
+        self.patch = None
+
+    async def open(self):
+        kind = self.kind
+        if kind == "tcp":
+            self.server = await asyncio.start_server(self._on_client, "127.0.0.1", 0)
+            self.transport = TCPTransport("127.0.0.1", self.server.sockets[0].getsockname()[1])
+        elif kind == "serial":
+            wire = self
+
+            class Serial(LoopbackSerial):
+                async def _open_connection(self):
+                    result = await super()._open_connection()
+                    wire.peers.append(self.peer)
+                    return result
+            self.transport = Serial(False)
+        elif kind == "mqtt-client":
+            FakeMqttClient.fail_connect = False
+            FakeMqttClient.fail_subscribe_at = None
+            FakeMqttClient.instances = []
+            self.patch = mock.patch.object(mqtt_mod, "AsyncioClient", FakeMqttClient)
+            self.patch.start()
+            self.transport = mqtt_mod.MQTTClient("broker.invalid")
+        elif kind == "mqtt-abstract":
+            self.transport = MemoryMqtt(False)
+        else:
+            raise ValueError(kind)
+        return self.transport
+
+    async def _on_client(self, reader, writer) -> None:
+        self.peer_writers.append(writer)
+        try:
+            await reader.read()           # until the client closes (a close with unread data arrives as a reset)
+        except OSError:
+            pass
+        finally:
+            self.peer_done += 1
+            writer.close()
+
+    def _buffered(self) -> int | None:
+        buf = getattr(getattr(self.transport, "reader", None), "_buffer", None)
+        return len(buf) if buf is not None else None
+
+    def unread(self) -> int | None:
+        """What the transport holds received and unread, as far as the harness can see it (messages for the MQTT kinds,
+        bytes for the stream kinds); informational."""
+        if self.kind in ("tcp", "serial"):
+            return self._buffered()
+        q = getattr(self.transport, "_incoming_messages", None)
+        return q.qsize() if hasattr(q, "qsize") else None
+
+    async def deliver(self, items: list[tuple], transport=None) -> None:
+        """The far end sends; returns when the transport has received it (it sits in the transport, unread)."""
+        if not items:
+            return
+        t = self.transport
+        if self.kind in ("tcp", "serial"):
+            data = b"".join(PARTIAL_BYTES if it[0] == "partial" else
+                            ((presentation_line(it[1]) if it[0] == "msg" else INVALID_LINE) + "\n").encode() for it in items)
+            had = self._buffered()
+            if self.kind == "tcp":
+                await asyncio.wait_for(_until(lambda: len(self.peer_writers) > self.peer_done, GUARD), 2 * GUARD)
+                w = self.peer_writers[-1]
+                w.write(data)
+                await asyncio.wait_for(w.drain(), GUARD)
+            else:
+                self.peers[-1].sendall(data)
+            if had is None or not await _until(lambda: (self._buffered() or 0) >= had + len(data)):
+                await asyncio.sleep(0.03)
+            return
+        for it in items:
+            if it[0] == "partial":
+                continue
+            topic, payload = (f"{t.in_prefix}/{it[1]}/255/0/0/17", "2.0") if it[0] == "msg" else (f"{t.in_prefix}/x/y/z/q/w", "p")
+            if self.kind == "mqtt-abstract":
+                if it[0] == "recv-error":
+                    t._receive_error(mqtt_mod.TransportFailedError("injected: receiving failed"))     # noqa: SLF001
+                else:
+                    t._receive(topic, payload)                                                       # noqa: SLF001
+            else:
+                inbox = FakeMqttClient.instances[-1].messages.inbox
+                if it[0] == "recv-error":
+                    inbox.put_nowait(mqtt_mod.MqttError("injected: connection lost"))
+                else:
+                    inbox.put_nowait(SimpleNamespace(topic=SimpleNamespace(value=topic), payload=payload.encode()))
+        for _ in range(10):               # the client's receive task takes them in
+            await asyncio.sleep(0)
+
+    async def far_end_closed(self) -> bool | None:
+        """Did the far end see every connection this transport opened go away?"""
+        if self.kind == "tcp":
+            return await _until(lambda: self.peer_done >= len(self.peer_writers))
+        if self.kind == "serial":
+            def all_closed() -> bool:
+                for peer in self.peers:
+                    peer.setblocking(False)
+                    try:
+                        while peer.recv(65536):
+                            pass
+                    except BlockingIOError:
+                        return False
+                    except OSError:
+                        pass              # reset: closed with unread data
+                return True
+            return await _until(all_closed)
+        if self.kind == "mqtt-client":
+            return all(c.exited for c in FakeMqttClient.instances if c.entered)
+        return self.transport.events.count("disconnect") >= self.transport.events.count("connect")
+
+    async def close(self) -> None:
+        if self.patch is not None:
+            self.patch.stop()
+        for w in self.peer_writers:
+            w.close()
+        if self.server is not None:
+            self.server.close()
+            await self.server.wait_closed()
+        for peer in self.peers:
+            peer.close()
+
+
+def traffic_items(first_id: int, before: int, read: int, late: int, exit_how: str, poison: str | None, partial: bool,
+                  late_error: bool = False):
+    """(what arrives before the body reads, what arrives after its last read).  With `listen-raises` the item the body
+    cannot read sits behind the `read` messages it handles, in front of the others; `late_error`: after the last
+    message receiving fails (MQTT kinds), which stays unread as well."""
+    first = [("msg", first_id + i) for i in range(before)]
+    if exit_how == "listen-raises":
+        first.insert(read, (poison or "invalid",))
+    second = [("msg", first_id + before + i) for i in range(late)]
+    if partial:
+        second.append(("partial",))
+    if late_error:
+        second.append(("recv-error",))
+    return first, second
+
+
+class BodyTraffic:
+    """What the body of the context does with the transport's traffic: `before` messages arrive, the body handles
+    `read` of them through `gateway.listen()` (or reads until listen() raises), `late` more arrive after its last read."""
+
+    def __init__(self, deliver, before: int, read: int, late: int, exit_how: str = "normal", poison: str | None = None,
+                 partial: bool = False, first_id: int = 50, late_error: bool = False) -> None:
+        self.deliver = deliver           # deliver(items, transport)
+        self.first, self.second = traffic_items(first_id, before, read, late, exit_how, poison, partial, late_error)
+        self.read, self.exit_how = read, exit_how
+        self.handled = 0
+        self.raised: BaseException | None = None       # what listen() raised into the body
+        self.generators: list = []
+
+    async def in_body(self, gateway, transport=None) -> None:
+        await self.deliver(self.first, transport)
+        listen = gateway.listen()
+        self.generators.append(listen)      # kept: a generator dropped by the body is finalised by the loop at some later time
+        try:
+            while self.exit_how == "listen-raises" or self.handled < self.read:
+                await anext(listen)
+                self.handled += 1
+        except Exception as e:  # noqa: BLE001  the body ends with what listen() raised
+            self.raised = e
+        await self.deliver(self.second, transport)
+
+    async def cleanup(self) -> None:
+        for g in self.generators:
+            try:
+                await asyncio.wait_for(g.aclose(), GUARD)
+            except BaseException:  # noqa: BLE001
+                pass
+
+
+class FlakyMqtt(mqtt_mod.MQTTTransport):
+    """The MQTT base transport in memory, with FlakyTransport's knobs (for the gated scenarios)."""
+
+    def __init__(self, *, connect_fails=False, disconnect_fails=False, connect_waits=None, connect_suspends=True,
+                 disconnect_suspends=True) -> None:
+        super().__init__()
+        self.connect_fails, self.disconnect_fails = connect_fails, disconnect_fails
+        self.connect_waits, self.connect_suspends = connect_waits, connect_suspends
+        self.disconnect_suspends = disconnect_suspends
+        self.calls: list[str] = []
+
+    async def _connect(self) -> None:
+        self.calls.append("connect")
+        if self.connect_suspends:
+            await asyncio.sleep(0)
+        if self.connect_waits is not None:
+            await self.connect_waits()
+        if self.connect_fails:
+            raise ConnectBoom("connect")
+
+    async def _disconnect(self) -> None:
+        self.calls.append("disconnect")
+        if self.disconnect_suspends:
+            await asyncio.sleep(0)
+        if self.disconnect_fails:
+            raise DisconnectBoom("disconnect")
+
+    async def _publish(self, topic, payload, qos) -> None:
+        pass
+
+    async def _subscribe(self, topic, qos) -> None:
+        pass
+
+
+async def memory_delivery(items: list[tuple], t) -> None:
+    """Delivery for FlakyMqtt: the documented way, `_receive(topic, payload)` / `_receive_error(error)`."""
+    for it in items:
+        if it[0] == "msg":
+            t._receive(f"{t.in_prefix}/{it[1]}/255/0/0/17", "2.0")                              # noqa: SLF001
+        elif it[0] == "invalid":
+            t._receive(f"{t.in_prefix}/x/y/z/q/w", "p")                                          # noqa: SLF001
+        elif it[0] == "recv-error":
+            t._receive_error(mqtt_mod.TransportFailedError("injected: receiving failed"))        # noqa: SLF001
+
+
+async def run_unread(path: str, kind: str, before: int, read: int, late: int, exit_how: str, poison: str | None = None,
+                     partial: bool = False, sessions: int = 1, late_error: bool = False) -> list[dict]:
+    """The lifecycle with the real aiofiles thread pool and a built-in transport kind whose far end sends messages:
+    `before` arrive, the body handles `read` of them, `late` more arrive after its last read, then the context is left
+    as `exit_how` says (normal | raise | cancel | listen-raises) - with `before - read + late` messages received and
+    unread.  `sessions` > 1: the same Gateway and transport objects are entered again, with the same traffic.
+    One observation per session (the list ends with the first session that hung)."""
+    v0 = v0_nodes()
+    await asyncio.wait_for(Persistence(v0, path).save(), GUARD)
+    wire = Wire(kind)
+    out: list[dict] = []
+    try:
+        transport = await wire.open()
+        called: list[str] = []
+        orig_connect, orig_disconnect = transport.connect, transport.disconnect
+
+        async def spy_connect():
+            called.append("connect")
+            return await orig_connect()
+
+        async def spy_disconnect():
+            called.append("disconnect")
+            return await orig_disconnect()
+        transport.connect, transport.disconnect = spy_connect, spy_disconnect  # type: ignore[method-assign]
+        gateway = Gateway(transport, Config(persistence_file=path))
+        for session in range(sessions):
+            called.clear()
+            file0 = file_canon(path)
+            traffic = BodyTraffic(wire.deliver, before, read, late, exit_how, poison, partial, first_id=50 + 20 * session,
+                                  late_error=late_error)
+            obs: dict = {"entered": False, "loaded_ok": None, "stage": "entering", "session": session}
+            body_parked = asyncio.Event()
+            ended_with: list = []
+            reg_at_exit = None
+            before_tasks = asyncio.all_tasks()
+            exc: BaseException | None = None
+
+            async def context():
+                nonlocal reg_at_exit
+                try:
+                    async with gateway:
+                        obs["entered"] = True
+                        now = _dumped(canon(gateway.nodes))
+                        obs["loaded_ok"] = all(now.get(k) == v for k, v in _dumped(file0).items())
+                        obs["stage"] = "body"
+                        await asyncio.sleep(0.03)          # the saver's first save is done, it sleeps
+                        await traffic.in_body(gateway)
+                        gateway.nodes[42 + session] = Node(42 + session, 17, "2.0", sketch_name=f"added in the body of session {session}")
+                        reg_at_exit = canon(gateway.nodes)
+                        obs["received_and_unread_when_left"] = wire.unread()
+                        obs["stage"] = "leaving"
+                        if exit_how == "cancel":
+                            body_parked.set()
+                            await asyncio.Event().wait()     # the task running the context is cancelled here
+                        if traffic.raised is not None:
+                            ended_with.append(traffic.raised)
+                            raise traffic.raised
+                        if exit_how == "raise":
+                            ended_with.append(BodyBoom("body"))
+                            raise ended_with[0]
+                finally:
+                    if reg_at_exit is None:
+                        reg_at_exit = canon(gateway.nodes)
+
+            try:
+                if exit_how == "cancel":
+                    # leaving the context through cancellation of the task that runs it, the body parked
+                    task = asyncio.ensure_future(context())
+                    parked = asyncio.ensure_future(body_parked.wait())
+                    await asyncio.wait([task, parked], timeout=GUARD, return_when=asyncio.FIRST_COMPLETED)
+                    parked.cancel()
+                    if not task.done():
+                        task.cancel()
+                    await asyncio.wait([task], timeout=GUARD)
+                    if not task.done():
+                        task.cancel()                  # abandoned: it is parked somewhere in the exit
+                        await asyncio.wait([task], timeout=GUARD)
+                        raise TimeoutError
+                    if task.cancelled():
+                        raise asyncio.CancelledError
+                    if task.exception() is not None:
+                        raise task.exception()
+                else:
+                    await asyncio.wait_for(context(), GUARD)
+            except BaseException as e:  # noqa: BLE001
+                exc = e
+            await asyncio.sleep(0.02)      # let executor callbacks and closed sockets settle
+            outcome = "bodyErr" if exc is not None and ended_with and exc is ended_with[0] else classify(exc)
+            closed = None
+            if obs["entered"] and outcome != "hang":
+                closed = await wire.far_end_closed()
+            leftovers = [t for t in asyncio.all_tasks() - before_tasks if t is not asyncio.current_task() and not t.done()]
+            names = sorted({getattr(t.get_coro(), "__qualname__", "?") for t in leftovers})
+            names = [n for n in names if "on_client" not in n and "StreamReaderProtocol" not in n]
+            leftovers_real = [t for t in leftovers if getattr(t.get_coro(), "__qualname__", "?") in names]
+            for t in leftovers:
+                t.cancel()
+            if leftovers:
+                await asyncio.wait(leftovers, timeout=GUARD)
+            await traffic.cleanup()
+            content = file_canon(path)
+            obs.update({"outcome": outcome, "error": None if exc is None else f"{type(exc).__name__}: {exc}"[:200],
+                        "leftover_tasks": len(leftovers_real), "leftover_names": names, "saver_alive": False,
+                        "disconnect_called": "disconnect" in called, "connect_called": "connect" in called,
+                        "far_end_saw_the_connection_closed": closed,
+                        "started": True, "final_save_done": content == reg_at_exit,
+                        "file_is_registry_at_exit": content == reg_at_exit,
+                        "file": "truncated" if content == "" else "holds:1" if content == reg_at_exit else "other",
+                        "messages_handled_by_the_body": traffic.handled,
+                        "body_ended_with": None if not ended_with else type(ended_with[0]).__name__,
+                        "nodes_in_registry_at_exit": sorted(int(k) for k in _dumped(reg_at_exit))})
+            out.append(obs)
+            if outcome == "hang":
+                break
+    finally:
+        await wire.close()
+    return out
+
+
+def unread_scenarios(rng, tier: str) -> list[dict]:
+    """(before, read, late) = messages that arrive before the body reads, that it handles, that arrive after its last
+    read; unread at exit = before - read + late."""
+    patterns = [(1, 0, 0), (3, 1, 0), (2, 2, 1), (0, 0, 2), (5, 2, 3), (2, 2, 0)]
+    out = []
+    for kind in TRAFFIC_KINDS:
+        stream = kind in ("tcp", "serial")
+        for i, (b, r, l) in enumerate(patterns):
+            for j, how in enumerate(("normal", "raise", "cancel")):
+                if tier == "quick" and i >= 2 and (i + TRAFFIC_KINDS.index(kind)) % 3 != j:
+                    continue        # quick: every way of leaving for the first two patterns, one (rotating) for the others
+                out.append(dict(kind=kind, before=b, read=r, late=l, exit_how=how, partial=stream and (i + len(how)) % 2 == 0,
+                                origin="unread-grid"))
+        # the body ends with what listen() raised on one message of a burst, later messages already queued
+        out.append(dict(kind=kind, before=3, read=1, late=0, exit_how="listen-raises", poison="invalid", origin="unread-grid"))
+        out.append(dict(kind=kind, before=1, read=1, late=1, exit_how="listen-raises", poison="invalid", origin="unread-grid"))
+        if not stream:
+            out.append(dict(kind=kind, before=2, read=0, late=1, exit_how="listen-raises", poison="recv-error", origin="unread-grid"))
+            out.append(dict(kind=kind, before=0, read=0, late=0, exit_how="normal", poison="recv-error", late_error=True, origin="unread-grid"))
+        # only the beginning of a line has arrived (stream kinds), nothing at all (control)
+        out.append(dict(kind=kind, before=0, read=0, late=0, exit_how="normal", partial=stream, origin="unread-grid"))
+        # the same objects entered again after a context that was left with unread messages
+        out.append(dict(kind=kind, before=2, read=1, late=1, exit_how="normal", sessions=2, origin="unread-grid"))
+        out.append(dict(kind=kind, before=1, read=0, late=0, exit_how="raise", sessions=2, origin="unread-grid"))
+    for _ in range(8 if tier == "quick" else 120):
+        kind = rng.choice(TRAFFIC_KINDS)
+        b = rng.randint(0, 6)
+        r = rng.randint(0, b)
+        how = rng.choice(("normal", "raise", "cancel", "listen-raises"))
+        out.append(dict(kind=kind, before=b, read=r, late=rng.randint(0, 3), exit_how=how,
+                        poison=rng.choice(("invalid", "recv-error") if kind in MQTT_KINDS else ("invalid",)) if how == "listen-raises" else None,
+                        partial=kind in ("tcp", "serial") and rng.random() < 0.4,
+                        sessions=2 if rng.random() < 0.2 else 1, origin="unread-random"))
+    return out
+
+
 # ---- stretches of virtual time anywhere (a whole event loop on virtual time) ---------------------
 
 
@@ -1109,7 +1546,10 @@ def run_c16(ctx) -> Corr:
                 "file edited by another tool in between), every session judged by the whole oracle (+ connect attempted, file "
                 "loaded, saves started >= elapsed//900+1) and compared with the model's run for that session; "
                 "cadence: saves started within [0,T] >= T//900+1 for a list of "
-                "stretches T in virtual time; plus real-aiofiles runs with every built-in transport kind offline. "
+                "stretches T in virtual time; plus real-aiofiles runs with every built-in transport kind offline; plus contexts left "
+                "(normally, by an exception of the body or of listen(), by cancellation; once and twice on the same objects) while "
+                "the transport holds messages received and not read, with every built-in transport kind (oracle + the far end must "
+                "see the connection closed) and with an in-memory MQTT transport at every reachable saver position (oracle + model). "
                 "non-trivial = the saver exists and is not asleep-and-idle at exit, or a fault is injected")
     rng = lib.rng_for(ctx.seed, "c16")
     interval = int(getattr(pers_mod, "SAVE_INTERVAL", 0))
@@ -1338,6 +1778,111 @@ def run_c16(ctx) -> Corr:
                           f"file is registry at exit: {obs2['file_is_registry_at_exit']}, saver saves: {obs2['saver_saves']}")
 
     asyncio.run(real())
+
+    # messages that were received but not read when the context is left, every built-in transport kind
+    async def unread():
+        hangs = 0
+        for sc in unread_scenarios(rng, ctx.tier):
+            if hangs >= 2:
+                corr.count("unread:skipped-after-repeated-hangs")
+                continue
+            kind, how = sc["kind"], sc["exit_how"]
+            n_sessions = sc.get("sessions", 1)
+            case = {"transport": kind, "file_layer": "real aiofiles", "origin": sc["origin"],
+                    "what_happens": "per context: " + (f"{sc['before']} message(s) arrive; " if sc["before"] or how == "listen-raises" else "")
+                    + (f"the body reads through gateway.listen() until it raises ({sc.get('poison')} item behind message {sc['read']}); "
+                       if how == "listen-raises" else f"the body handles {sc['read']} of them through gateway.listen(); " if sc["before"] else "")
+                    + (f"{sc['late']} more arrive after its last read; " if sc["late"] else "")
+                    + ("the beginning of a further line arrives; " if sc.get("partial") else "")
+                    + ("then receiving fails (the error is queued for the reader); " if sc.get("late_error") else "")
+                    + {"normal": "the body ends normally", "raise": "the body raises", "cancel": "the task running the context is cancelled",
+                       "listen-raises": "the body ends with what listen() raised"}[how],
+                    "traffic": {**{k: sc[k] for k in ("before", "read", "late", "exit_how")},
+                                **{k: sc[k] for k in ("poison", "partial", "late_error") if sc.get(k)}},
+                    "contexts_on_the_same_objects": n_sessions}
+            try:
+                sessions = await run_unread(path, kind, sc["before"], sc["read"], sc["late"], how, poison=sc.get("poison"),
+                                            partial=bool(sc.get("partial")), sessions=n_sessions, late_error=bool(sc.get("late_error")))
+            except BaseException as e:  # noqa: BLE001
+                corr.violate(f"scenario with unread messages crashed: {type(e).__name__}: {e}"[:300], case)
+                continue
+            for obs in sessions:
+                k = obs["session"]
+                scase = {**case, "failing_context": k + 1} if n_sessions > 1 else case
+                corr.count("unread:transport:" + kind)
+                corr.count("unread:exit:" + how)
+                corr.count("unread:outcome:" + obs["outcome"])
+                left_unread = obs.get("received_and_unread_when_left")
+                corr.count("unread:left-with-unread-" + ("none" if not left_unread else "messages" if kind in MQTT_KINDS else "bytes"))
+                corr.case(("unread", kind, sc["before"], sc["read"], sc["late"], how, sc.get("poison"), bool(sc.get("partial")),
+                           bool(sc.get("late_error")), k), bool(left_unread),
+                          {"transport": kind, "traffic": scase["traffic"], "context": k + 1, "unread_when_left": left_unread,
+                           "outcome": obs["outcome"]})
+                if obs["outcome"] == "hang" and obs["stage"] == "body":
+                    # the harness's own body did not get through (a delivered message never reached listen()): that is
+                    # not what this property is about; nothing is judged
+                    corr.count("unread:not-judged(body did not get through)")
+                    corr.notes.append(f"unread-messages scenario not judged, the body did not get through its reads: {scase["what_happens"]} ({kind})"[:300])
+                    hangs += 1
+                    continue
+                hangs += obs["outcome"] == "hang"
+                faults = {"cancel": True} if how == "cancel" and obs["stage"] != "entering" else \
+                    {"body": True} if obs["body_ended_with"] else {}
+                what = f"context left with messages received and not read, transport {kind}" + (f" (context {k + 1} on the same objects)" if k else "")
+                ok = oracle(corr, what, scase, obs, faults)
+                if ok and obs["far_end_saw_the_connection_closed"] is False:
+                    corr.violate(what + ": the context was left but the far end still sees the connection open (the transport was "
+                                 "not disconnected)", {**scase, "observed": obs})
+
+    asyncio.run(unread())
+    corr.notes.append("messages received but not read at exit (real transports, real aiofiles): the Lean lifecycle model has no "
+                      "transport traffic and these runs do not control the saver's position, so they are judged by the oracle alone; "
+                      "the gated variant (in-memory MQTTTransport subclass, `gated-mqtt-unread`) places the saver and is compared "
+                      "with the model's run for the same position and faults - unread messages must make no difference")
+
+    # ... and the same with the saver placed: an MQTT kind of transport (subclass of the base class, messages through
+    # `_receive`) with unread messages at exit, at every saver position that transport can reach
+    gated_unread: list[tuple[str, dict, tuple]] = []
+    fault_sets = [{}, {"body": True}, {"cancel": True}, {"disconnect": True}, {"final": True},
+                  {"body": True, "disconnect": True, "final": True}, {"cancel": True, "disconnect": True}]
+    patterns = [(1, 0, 0), (3, 1, 0), (2, 2, 1), (0, 0, 2)]
+    reachable = [p for p in positions if p != "not-started"]       # MQTTTransport.connect always suspends (it gathers the subscriptions)
+    if ctx.tier == "quick":
+        for i, pos in enumerate(reachable):
+            for j in range(3):
+                gated_unread.append((pos, fault_sets[(3 * i + j) % len(fault_sets)], patterns[(i + j) % len(patterns)]))
+    else:
+        gated_unread = [(pos, f, pt) for pos in reachable for f in fault_sets for pt in patterns]
+
+    async def gated_with_unread():
+        hangs = 0
+        for pos, faults, (b, r, l) in gated_unread:
+            if hangs >= 2:
+                corr.count("gated-mqtt-unread:skipped-after-repeated-hangs")
+                continue
+            faults = dict(faults)
+            case = {"position": pos, "faults": faults, "origin": "gated-mqtt-unread", "transport": "MQTTTransport subclass in memory",
+                    "what_happens": f"in the body, with the saver at {pos}: {b} message(s) arrive through _receive, the body handles {r} through "
+                               f"gateway.listen(), {l} more arrive; the context is left with {b - r + l} unread"}
+            traffic = BodyTraffic(memory_delivery, b, r, l)
+            try:
+                obs = await run_gated(path, pos, faults, transport_class=FlakyMqtt, traffic=traffic)
+            except BaseException as e:  # noqa: BLE001
+                corr.violate(f"scenario could not be driven to its position: {type(e).__name__}: {e}"[:300], case)
+                continue
+            obs["messages_handled_by_the_body"] = traffic.handled
+            ok = oracle(corr, f"exit with the saver at {pos}, unread messages in an MQTT kind of transport", case, obs, faults, pos)
+            hangs += obs["outcome"] == "hang"
+            corr.count("gated-mqtt-unread:position:" + pos)
+            corr.count("gated-mqtt-unread:faults:" + (",".join(sorted(faults)) or "none"))
+            corr.case(("gated-mqtt-unread", pos, tuple(sorted(faults)), b, r, l), True,
+                      {"position": pos, "faults": faults, "unread": b - r + l, "outcome": obs["outcome"], "file": obs["file"], "ok": ok})
+            if ctx.model_ok:
+                model_lines.append(f"lnew {fault_bits(faults)} 0 0")
+                model_lines.append("lrun " + ",".join(model_schedule(pos, faults)))
+                pending.append((case, obs))
+
+    asyncio.run(gated_with_unread())
 
     # a connect attempt that stays pending for a long stretch of (virtual) time before it fails or succeeds, and a
     # long-lived body: the whole event loop runs on virtual time, so every timer in the code under test is covered
